@@ -498,6 +498,9 @@ func (w *World) modelCanExecute(ch string, b *mhub2types.BatchTx) bool {
 }
 
 func (o *C13) gone(w *World, prev, cur *Snap, at string) {
+	if w.Tainted {
+		return
+	}
 	t := w.T()
 	for _, ch := range Chains {
 		execs := appliedExecOn(t, ch)
